@@ -230,6 +230,8 @@ func mergeEvidence(id string, a, b *evidence) {
 	cov["cases"] = num(a.Coverage, "cases") + num(b.Coverage, "cases")
 	cov["plain_pass"] = map[string]any{"cases": a.Coverage["cases"], "stats": a.Coverage["stats"], "evaluations": a.Coverage["evaluations"], "distinct_interleavings": a.Coverage["distinct_nontrivial"], "wall_s": a.WallS}
 	cov["race_pass"] = map[string]any{"cases": b.Coverage["cases"], "stats": b.Coverage["stats"], "evaluations": b.Coverage["evaluations"], "distinct_interleavings": b.Coverage["distinct_nontrivial"], "wall_s": b.WallS, "race_build": true}
+	cov["grammars"] = num(a.Coverage, "grammars") + num(b.Coverage, "grammars")
+	cov["race_build"] = "both: a plain pass and a pass under go build -race"
 	cov["runs_per_hour"] = perHour(num(cov, "evaluations"), out.WallS)
 	out.Coverage = cov
 	writeEvidence(&out)
